@@ -78,7 +78,7 @@ Definition ex_history : list item :=
     IRun (ABoot None);
     ICrash (AStep (SBatch [15] 450%Z 6) (EOk 10)) 5;
     IRun (ABoot None);
-    IStop (Some 3);
+    IStop (Some 3%nat);
     IRun (ABoot None);
     IRun (AStep (SBatch [14] 500%Z 5) (EOk 9)) ].
 
@@ -131,10 +131,10 @@ Proof. vm_compute. repeat split. Qed.
    after any number of files is followed by a successful start; only damage BY HAND makes a start fail, until
    a complete shutdown rewrites the files *)
 Example before_the_repair_F6 :
-  map o_res (outputs w_cfg [IRun (ABoot (Some 1)); IRun (AStep SNil (EOk 2)); IStop (Some 1); IRun (ABoot None)])
+  map o_res (outputs w_cfg [IRun (ABoot (Some 1)); IRun (AStep SNil (EOk 2)); IStop (Some 1%nat); IRun (ABoot None)])
     = [OBootOk; OCommitted 1; OStopped; OBootOk]
-  /\ map o_res (outputs w_cfg [IRun (ABoot (Some 1)); ITamper 2; IStop (Some 2); IRun (ABoot None)])
+  /\ map o_res (outputs w_cfg [IRun (ABoot (Some 1)); ITamper 2%nat; IStop (Some 2%nat); IRun (ABoot (Some 5))])
     = [OBootOk; OTampered; OStopped; OBootFailCache]
-  /\ map o_res (outputs w_cfg [IRun (ABoot (Some 1)); ITamper 2; IStop (Some 3); IRun (ABoot None)])
+  /\ map o_res (outputs w_cfg [IRun (ABoot (Some 1)); ITamper 2%nat; IStop (Some 3%nat); IRun (ABoot (Some 5))])
     = [OBootOk; OTampered; OStopped; OBootOk].
 Proof. vm_compute. repeat split. Qed.
